@@ -162,20 +162,110 @@ def dependsOn : List (String × String) :=
    ("-xticklabels", "-xticks"), ("-yticklabels", "-yticks"),
    ("-left", "-nomargin"), ("-right", "-nomargin"), ("-top", "-nomargin"), ("-bottom", "-nomargin")]
 
-/-- Plot kinds of the check and the documented / structural applicability of a property:
-    colour bar options "only … in combination with -type map"; annotations "not supported by all
-    metrics" (checked on the standard plot and the map); per-input line styles and a legend exist
-    only where the plot draws one line per input (standard plot, reliability diagram); a perfect-score
-    line only where a metric with a perfect score is plotted (standard plot). -/
+/-! ### Plot kinds
+
+The figures of the check: every documented diagram (`verif --help`, "Special diagrams", and the
+`-hist` / `-sort` variants), the standard plot of a metric on a lead-time, a location and a date
+axis, and the plot types `map`, `rank`, `impact`, `maprank` of a standard metric.  What follows is
+read off the descriptions of the diagrams, not off the plotting code:
+
+  * "one line per input": the diagram shows one curve (or one set of points / bars) for each input
+    file, so the per-input style lists `-lc -ls -lw -ma -ms` ("repeated if there are more lines
+    than …") have something to apply to.  The PIT histogram (one grey histogram per input), the
+    against diagram (pairs of inputs, colours mean "which input is better"), the meteogram (one
+    input; observation red, forecast green, quantiles black), the maps and the impact diagram
+    (red / blue = which input is worse) do not.
+  * a point diagram (scatter, Taylor, performance, error decomposition, Brier decomposition,
+    auto-correlation; the standard plot on a location axis) has no connecting line, so a line style
+    has nothing to show there; bars (discrimination diagram, rank plot) take colour (and the
+    discrimination diagram an outline width), not markers or line styles.
+  * diagrams made of several panels of equal rank (PIT histograms, against diagram, maps, the two
+    stacked panels of the ignorance-contribution diagram): axis options apply to every panel.
+  * a legend names the inputs wherever inputs are distinguished by a legend; the PIT histogram and
+    the against diagram name them in titles / axis labels, the map in titles: no legend.  The
+    meteogram's legend names its own lines (observation, forecast, quantiles), not the input.
+  * the x-axis of `-x time`, of the time series and of the meteogram shows dates.
+  * a perfect score exists (and `-sp` can show it) for a metric with a perfect score (the standard
+    plot, the change diagram: MAE 0), for the forecast-against-observation diagrams (the diagonal:
+    Q-Q, scatter, conditional, reliability), for the ROC diagrams (through hit rate 1 at false-alarm
+    rate 0) and for the spread-skill diagram. -/
+
+/-- a figure of the check: name used in the op lines and the command-line arguments that produce it -/
+structure Kind where
+  name : String
+  /-- `-m` -/
+  metric : String
+  /-- `-hist` / `-sort` (a field plotted as histogram / sorted), `` otherwise -/
+  variant : String := ""
+  /-- `-type`, `` = plot -/
+  ptype : String := ""
+  /-- `-x`, `` = the diagram's own axis -/
+  xaxis : String := ""
+  deriving DecidableEq, Repr
+
+def kinds : List Kind :=
+  [⟨"mae", "mae", "", "", "leadtime"⟩, ⟨"loc", "mae", "", "", "location"⟩, ⟨"time", "mae", "", "", "time"⟩,
+   ⟨"map", "mae", "", "map", ""⟩, ⟨"rank", "mae", "", "rank", ""⟩, ⟨"impact", "mae", "", "impact", ""⟩,
+   ⟨"maprank", "mae", "", "maprank", ""⟩,
+   ⟨"hist", "fcst", "-hist", "", ""⟩, ⟨"sort", "fcst", "-sort", "", ""⟩,
+   ⟨"against", "against", "", "", ""⟩, ⟨"autocorr", "autocorr", "", "", ""⟩, ⟨"autocov", "autocov", "", "", ""⟩,
+   ⟨"bsdecomp", "bsdecomp", "", "", ""⟩, ⟨"change", "change", "", "", ""⟩, ⟨"cond", "cond", "", "", ""⟩,
+   ⟨"droc", "droc", "", "", ""⟩, ⟨"droc0", "droc0", "", "", ""⟩, ⟨"discrimination", "discrimination", "", "", ""⟩,
+   ⟨"economicvalue", "economicvalue", "", "", ""⟩, ⟨"error", "error", "", "", ""⟩, ⟨"freq", "freq", "", "", ""⟩,
+   ⟨"fss", "fss", "", "", ""⟩, ⟨"igncontrib", "igncontrib", "", "", ""⟩,
+   ⟨"invreliability", "invreliability", "", "", ""⟩, ⟨"marginal", "marginal", "", "", ""⟩,
+   ⟨"meteo", "meteo", "", "", ""⟩, ⟨"murphy", "murphy", "", "", ""⟩, ⟨"obsfcst", "obsfcst", "", "", ""⟩,
+   ⟨"performance", "performance", "", "", ""⟩, ⟨"pithist", "pithist", "", "", ""⟩, ⟨"qq", "qq", "", "", ""⟩,
+   ⟨"reliability", "reliability", "", "", ""⟩, ⟨"roc", "roc", "", "", ""⟩, ⟨"scatter", "scatter", "", "", ""⟩,
+   ⟨"spreadskill", "spreadskill", "", "", ""⟩, ⟨"taylor", "taylor", "", "", ""⟩,
+   ⟨"timeseries", "timeseries", "", "", ""⟩]
+
+def kindOf (plot : String) : Option Kind := kinds.find? fun k => k.name == plot
+
+/-- one line per input, joined by a line -/
+def lineKinds : List String :=
+  ["mae", "time", "reliability", "qq", "cond", "freq", "marginal", "invreliability", "roc", "droc", "droc0",
+   "spreadskill", "murphy", "economicvalue", "igncontrib", "fss", "timeseries", "change", "obsfcst", "hist", "sort"]
+
+/-- one set of points per input, not joined -/
+def pointKinds : List String :=
+  ["loc", "scatter", "performance", "taylor", "error", "bsdecomp", "autocorr", "autocov"]
+
+/-- one set of bars per input (discrimination diagram) / per rank (rank plot) -/
+def barKinds : List String := ["discrimination", "rank"]
+
+/-- several panels of equal rank -/
+def panelKinds : List String := ["pithist", "against", "map", "igncontrib"]
+
+/-- no legend at all -/
+def noLegendKinds : List String := ["pithist", "against", "map"]
+
+/-- a legend that does not name the inputs -/
+def ownLegendKinds : List String := ["meteo"]
+
+/-- the x-axis shows dates: `-xlim` / `-xticks` are dates (YYYYMMDD, verif's notation for dates everywhere) -/
+def dateAxisKinds : List String := ["time", "timeseries", "meteo"]
+
+/-- `-sp` has a perfect score to show -/
+def perfectKinds : List String :=
+  ["mae", "loc", "time", "change", "qq", "scatter", "cond", "reliability", "roc", "droc", "droc0", "spreadskill"]
+
+def dateAxis (plot : String) : Bool := dateAxisKinds.contains plot
+
+/-- Documented / structural applicability of a property to a plot kind: colour bar options "only … in
+    combination with -type map"; annotations "not supported by all metrics" (checked on the standard plot
+    and the map); the rest as described above. -/
 def applicable (plot : String) (f : Field) : Bool :=
-  let standard := plot == "mae" || plot == "loc"
   match f with
   | .cLabel | .cLim => plot == "map"
-  | .annotate | .annotationFields | .annotationSize => standard || plot == "map"
-  | .seriesColor | .seriesWidth | .seriesMarker | .seriesMarkerSize => standard || plot == "reliability"
-  | .seriesStyle => plot == "mae" || plot == "reliability"
-  | .legendEntries | .legendSize | .legendLoc => standard || plot == "reliability"
-  | .perfectLine => standard
+  | .annotate | .annotationFields | .annotationSize => plot == "mae" || plot == "loc" || plot == "map"
+  | .seriesColor => lineKinds.contains plot || pointKinds.contains plot || barKinds.contains plot
+  | .seriesWidth => lineKinds.contains plot || plot == "loc" || plot == "discrimination"
+  | .seriesMarker | .seriesMarkerSize => lineKinds.contains plot || pointKinds.contains plot
+  | .seriesStyle => lineKinds.contains plot
+  | .legendEntries => !(noLegendKinds.contains plot || ownLegendKinds.contains plot)
+  | .legendSize | .legendLoc => !(noLegendKinds.contains plot)
+  | .perfectLine => perfectKinds.contains plot
   | _ => true
 
 end VerifModel.Spec.Appearance
